@@ -1536,6 +1536,23 @@ func (s *Store) deleteValue(key []byte) error {
 	return err
 }
 
+// deleteValueAndStoreObject deletes a key and stores an object (see StoreObject) in one transaction
+func (s *Store) deleteValueAndStoreObject(key []byte, collection CollectionIndex, id string, data interface{}) error {
+	b, err := json.Marshal(data)
+	if err != nil {
+		return err
+	}
+	indexBytes := make([]byte, 2)
+	binary.BigEndian.PutUint16(indexBytes, uint16(collection))
+	objectKey := append(indexBytes, []byte("::"+id)...)
+	return s.database.Update(func(txn *badger.Txn) error {
+		if err := txn.Delete(key); err != nil {
+			return err
+		}
+		return txn.Set(objectKey, b)
+	})
+}
+
 func (s *Store) moveValue(oldKey, newKey, newValue []byte) error {
 	tags := []string{
 		"application:datahub",
